@@ -6,7 +6,9 @@
    inside every write, byte offsets (all of them in the thorough tier); each state is
    materialised in a scratch cache directory and the real reader code is run on it.
 3. Live kills: the writer is killed by strace fault injection at its K-th write to the file.
-4. Schedules: two writers and a reader as real concurrent processes with random start delays;
+4. Write errors: the writer runs with its file size capped (RLIMIT_FSIZE) so that write(2) fails with EFBIG
+   after L bytes, for L at both ends of the file and at random offsets; a later run reads the directory.
+5. Schedules: two writers and a reader as real concurrent processes with random start delays;
    their syscalls are logged with timestamps and distinct interleavings are counted.
 The reader must always end with the reference table (read or recomputed) and never raise.
 """
@@ -273,6 +275,62 @@ def post(ctx, agg):
         elif rd.get("digest") != S["ref"] or rd.get("shape") != [NTIPS, 2]:
             agg.violation("live-kill:truncated-table-used", f"writer killed at write #{K} (files left {files}); the next run used a table of shape {rd.get('shape')}")
         shutil.rmtree(home, ignore_errors=True)
+    # ---- write errors: the writer's file size is capped at L bytes (RLIMIT_FSIZE, SIGXFSZ ignored), so its
+    # write(2) fails with EFBIG after exactly L bytes, as a full disk or a quota would; the writer may fail,
+    # a later run must still end with the reference table
+    total = sum(len(a[1]) for k, a in S["events"] if k == "write")
+    if total:
+        rng_w = ctx.rng(2)
+        offs = {0, 1, total // 2, total - 1} | set(range(max(0, total - 28), total))
+        offs |= set(int(x) for x in rng_w.integers(0, total, size=4 if ctx.tier == "quick" else 60))
+        if ctx.tier == "thorough":
+            offs |= set(range(max(0, total - 120), total)) | set(range(0, 40))
+
+        def limited(L):
+            def f():
+                import resource
+                import signal
+                signal.signal(signal.SIGXFSZ, signal.SIG_IGN)
+                resource.setrlimit(resource.RLIMIT_FSIZE, (L, L))
+            return f
+
+        def one(L):
+            home = os.path.join(ctx.scratch, f"efbig_{L}")
+            os.makedirs(home, exist_ok=True)
+            cmd = [sys.executable, "-B", "-m", "vpkit.children.c36_child", str(NTIPS), "0"]
+            try:
+                pw = subprocess.run(cmd, env=child_env(home), capture_output=True, text=True, timeout=300,
+                                    preexec_fn=limited(L))
+                line = [ln for ln in pw.stdout.splitlines() if ln.startswith("C36CHILD ")]
+                w = json.loads(line[0][9:]) if line else None
+                d_ = os.path.join(home, "tsdate")
+                files = {f: os.path.getsize(os.path.join(d_, f)) for f in os.listdir(d_)} if os.path.isdir(d_) else {}
+                rd, p2 = run_child(home)
+                return L, w, files, rd, p2.stderr[-200:]
+            except subprocess.TimeoutExpired:
+                return L, None, {}, "timeout", ""
+            finally:
+                shutil.rmtree(home, ignore_errors=True)
+
+        from concurrent.futures import ThreadPoolExecutor
+        with ThreadPoolExecutor(8) as ex:
+            results = list(ex.map(one, sorted(offs)))
+        for L, w, files, rd, err in results:
+            if rd == "timeout":
+                agg.watchdog.append(f"write error at {L}")
+                continue
+            agg.cnt["write_error_points"] += 1
+            agg.sigs.add(f"efbig@{L}")
+            if w is not None and not w.get("ok"):
+                agg.cnt["write_error_points_where_writer_failed"] += 1
+            if w is not None and w.get("ok") and (w.get("digest") != S["ref"]):
+                agg.violation("write-error:writer-used-wrong-table", f"write failing after {L} bytes: the writer itself ended with another table")
+            if not (rd and rd.get("ok")):
+                agg.violation("write-error:reader-raised", f"write failed after {L} of {total} bytes (files left {files}); the next run failed: {rd or err}")
+            elif rd.get("digest") != S["ref"] or rd.get("shape") != [NTIPS, 2]:
+                agg.violation("write-error:damaged-table-used",
+                              f"write failed after {L} of {total} bytes (files left {files}); the next run silently used a table "
+                              f"of shape {rd.get('shape')} that differs from a freshly computed one")
     # ---- schedules: 2 writers + 1 reader, random start delays
     rng = ctx.rng(1)
     ntr = 12 if ctx.tier == "quick" else 150
@@ -341,6 +399,8 @@ def reach(ctx, agg):
     out = []
     if agg.cnt.get("crash_states", 0) < 100:
         out.append(f"crash_states = {agg.cnt.get('crash_states', 0)} < 100")
+    if agg.cnt.get("write_error_points_where_writer_failed", 0) < 10:
+        out.append(f"write_error_points_where_writer_failed = {agg.cnt.get('write_error_points_where_writer_failed', 0)} < 10")
     if agg.cnt.get("live_kills", 0) < 2:
         out.append(f"live_kills = {agg.cnt.get('live_kills', 0)} < 2")
     if agg.cnt.get("live_kills_where_writer_died", 0) < 1:
